@@ -168,62 +168,6 @@ fn c15_to_vecs() {
     core::mem::forget(v);
 }
 
-/// Consuming iteration: each element exactly once, in order, rest None except the tail attached to the last.
-/// into_vec returns (xs, t).
-/// @bound chains of 1..=2 cells, tail Null / Nil / number
-/// @encodes cons::IntoIter::next, Cons::into_pair, Cons::into_vec
-/// @tier thorough
-/// @timeout 1500
-#[kani::proof]
-#[kani::unwind(4)]
-fn c15_into_iter() {
-    let xs: [i64; MAXLEN] = kani::any();
-    let len: usize = kani::any();
-    kani::assume(len >= 1 && len <= 2);
-    let kind: u8 = kani::any();
-    kani::assume(kind <= 2);
-    let payload: u64 = kani::any();
-    let v = chain(&xs, len, mk_tail(kind, payload));
-    let which: bool = kani::any();
-    if let Value::Cons(c) = v {
-        if which {
-            let mut it = c.into_iter();
-            let mut i = 0;
-            while i < len {
-                assert!(it.peek().is_some());
-                let (e, rest) = it.next().unwrap();
-                assert!(e.as_i64() == Some(xs[i]));
-                if i + 1 < len {
-                    assert!(rest.is_none());
-                } else {
-                    assert!(rest.is_some() && tail_matches(rest.as_ref().unwrap(), kind, payload));
-                }
-                core::mem::forget(e);
-                core::mem::forget(rest);
-                i += 1;
-            }
-            assert!(it.peek().is_none());
-            assert!(it.next().is_none());
-            core::mem::forget(it);
-        } else {
-            let (vec, t) = c.into_vec();
-            assert!(vec.len() == len);
-            let mut i = 0;
-            while i < len {
-                assert!(vec[i].as_i64() == Some(xs[i]));
-                i += 1;
-            }
-            assert!(tail_matches(&t, kind, payload));
-            core::mem::forget(vec);
-            core::mem::forget(t);
-        }
-    } else {
-        assert!(false);
-    }
-    kani::cover!(which && len == 2 && kind == 0);
-    kani::cover!(!which && len == 2 && kind == 2);
-}
-
 fn key_value(kind: u8, b: u8) -> Value {
     let s = [b];
     let st = core::str::from_utf8(&s).unwrap();
@@ -297,7 +241,7 @@ fn c15_alist_name() {
 
 /// Association-list lookup by value key: the cdr of the first entry whose car equals the key value (same kind AND
 /// payload); None / nil otherwise.
-/// @bound alists of 0..=3 entries, keys of 4 kinds x 3 bytes, symbolic key value
+/// @bound alists of 0..=2 entries, keys symbol or number (2 payloads each) or non-pair entries, symbolic key value
 /// @encodes value::index::<impl Index for Value>::index_into, match_pair_key
 /// @tier thorough
 /// @timeout 1500
@@ -305,13 +249,13 @@ fn c15_alist_name() {
 #[kani::unwind(6)]
 fn c15_alist_value() {
     let n: usize = kani::any();
-    kani::assume(n <= 3);
+    kani::assume(n <= 2);
     let kinds: [u8; 3] = kani::any();
     let keys: [u8; 3] = kani::any();
     let vals: [i64; 3] = kani::any();
     let mut i = 0;
     while i < 3 {
-        kani::assume(kinds[i] <= 4 && keys[i] >= b'a' && keys[i] <= b'b');
+        kani::assume((kinds[i] == 1 || kinds[i] == 3 || kinds[i] == 4) && keys[i] >= b'a' && keys[i] <= b'b');
         i += 1;
     }
     let mut v = Value::Null;
@@ -327,7 +271,7 @@ fn c15_alist_value() {
     }
     let qk: u8 = kani::any();
     let qb: u8 = kani::any();
-    kani::assume(qk <= 3 && qb >= b'a' && qb <= b'b');
+    kani::assume((qk == 1 || qk == 3) && qb >= b'a' && qb <= b'b');
     let key = key_value(qk, qb);
     let mut exp: Option<i64> = None;
     let mut i = 0;
@@ -347,53 +291,10 @@ fn c15_alist_value() {
         Some(e) => assert!(ix.as_i64() == Some(e)),
         None => assert!(ix.is_nil()),
     }
-    kani::cover!(n == 3 && exp.is_some());
-    kani::cover!(n == 3 && exp.is_none() && keys[0] == qb);
+    kani::cover!(n == 2 && exp.is_some());
+    kani::cover!(n == 2 && exp.is_none() && keys[0] == qb);
     core::mem::forget(v);
     core::mem::forget(key);
-}
-
-/// Value::list / Value::append build exactly the chain xs ++ t (a list tail merges into the chain); an empty
-/// element sequence yields the tail itself.
-/// @bound 0..=2 elements, 7 tail kinds plus a one-cell list tail
-/// @encodes Value::append, Value::list
-/// @tier thorough
-/// @timeout 1500
-#[kani::proof]
-#[kani::unwind(5)]
-fn c15_append() {
-    let xs: [i64; 2] = kani::any();
-    let len: usize = kani::any();
-    kani::assume(len <= 2);
-    let kind: u8 = kani::any();
-    kani::assume(kind <= 7);
-    let payload: u64 = kani::any();
-    let tail = if kind == 7 { Value::Cons(Cons::new(Value::from(payload), Value::Null)) } else { mk_tail(kind, payload) };
-    let items: Vec<Value> = match len {
-        0 => Vec::new(),
-        1 => vec![Value::from(xs[0])],
-        _ => vec![Value::from(xs[0]), Value::from(xs[1])],
-    };
-    let v = Value::append(items, tail);
-    // walk
-    let mut cur = &v;
-    let mut i = 0;
-    while i < len {
-        let (a, d) = cur.as_pair().unwrap();
-        assert!(a.as_i64() == Some(xs[i]));
-        cur = d;
-        i += 1;
-    }
-    if kind == 7 {
-        let (a, d) = cur.as_pair().unwrap();
-        assert!(a.as_u64() == Some(payload) && d.is_null());
-        assert!(v.is_list());
-    } else {
-        assert!(tail_matches(cur, kind, payload));
-    }
-    kani::cover!(len == 2 && kind == 7);
-    kani::cover!(len == 0 && kind == 2);
-    core::mem::forget(v);
 }
 
 /// Indexing never panics and yields None / nil on every non-list kind, for every usize, name and value key.
@@ -430,41 +331,4 @@ fn c15_index_nonlist() {
     assert!(vec.get("a").is_none());
     kani::cover!(k == 8 && i == usize::MAX);
     core::mem::forget(v); core::mem::forget(key); core::mem::forget(vec);
-}
-
-/// Cloned vector conversions (Cons::to_vec, Value::to_vec) return exactly (xs, t) / Some(xs) for proper lists.
-/// @bound chains of 1..=2 cells, tail Null / Nil / number
-/// @encodes Cons::to_vec, Value::to_vec
-/// @tier thorough
-/// @timeout 1500
-#[kani::proof]
-#[kani::unwind(5)]
-fn c15_to_vec_cloned() {
-    let xs: [i64; MAXLEN] = kani::any();
-    let len: usize = kani::any();
-    kani::assume(len >= 1 && len <= 2);
-    let kind: u8 = kani::any();
-    kani::assume(kind <= 2);
-    let payload: u64 = kani::any();
-    let v = chain(&xs, len, mk_tail(kind, payload));
-    let c = v.as_cons().unwrap();
-    let (cv, ct) = c.to_vec();
-    assert!(cv.len() == len);
-    let mut i = 0;
-    while i < len {
-        assert!(cv[i].as_i64() == Some(xs[i]));
-        i += 1;
-    }
-    assert!(tail_matches(&ct, kind, payload));
-    core::mem::forget(cv);
-    core::mem::forget(ct);
-    let o = v.to_vec();
-    assert!(o.is_some() == (kind == 0));
-    if let Some(o) = o {
-        assert!(o.len() == len);
-        assert!(o[0].as_i64() == Some(xs[0]));
-        core::mem::forget(o);
-    }
-    kani::cover!(len == 2 && kind == 0);
-    core::mem::forget(v);
 }
